@@ -4,6 +4,9 @@ package main
 //
 // Kinds:
 //   c16.msg (dag root tab0 tab1) -> 'err | (kind hash normhash init bodyref bodybits nbodyrefs src dest)
+//   c16.htx / c16.hmsg ((source...) (op...)) -> (result per op): a HISTORY on one tlb.Transaction /
+//            tlb.Message variable: (0 i hasher) decode source i into it, (1) Hash(), (2 mutate) SourceBoc() /
+//            Hash(true) (mutate: the caller then overwrites the returned slice), (3) go on with a copy
 //   c16.tx  (dag root tab0 tab1) -> 'err | (hash (inmsg-hash inmsg-normhash)? (sourceboc parses-back))
 // Every case is decoded twice by the real tlb package: tlb.Unmarshal (no hasher)
 // and tlb.NewDecoder() (caching hasher, cache warmed with other cells of the
@@ -30,6 +33,8 @@ import (
 func init() {
 	execs["c16.msg"] = execC16Msg
 	execs["c16.tx"] = execC16Tx
+	execs["c16.htx"] = execC16HistTx
+	execs["c16.hmsg"] = execC16HistMsg
 	gens["C16"] = genC16
 }
 
@@ -220,6 +225,203 @@ func execC16Tx(in sx.V) sx.V {
 		return c16Fail("hasher-changes-result")
 	}
 	return a
+}
+
+// ---------------------------------------------------------------- histories
+
+type c16Src struct {
+	dag   []Node
+	root  int
+	cells []*boc.Cell // decoded from repeatedly, as a long-lived cell tree is
+}
+
+func c16Sources(v sx.V) ([]c16Src, bool) {
+	var out []c16Src
+	for _, sv := range v.List {
+		s := c16Src{dag: dagFromSx(sv.List[0]), root: sv.List[1].I()}
+		cells, err := buildGo(s.dag)
+		if err != nil {
+			return nil, false
+		}
+		s.cells = cells
+		out = append(out, s)
+	}
+	return out, true
+}
+
+// what a fresh variable reports after decoding the source (nil: decode fails)
+type c16Fresh struct {
+	hash, norm tlb.Bits256
+	boc        []byte
+}
+
+func c16FreshTx(s c16Src) *c16Fresh {
+	cells, _ := buildGo(s.dag)
+	var tx tlb.Transaction
+	if tlb.Unmarshal(cells[s.root], &tx) != nil {
+		return nil
+	}
+	b, err := tx.SourceBoc()
+	if err != nil {
+		return nil
+	}
+	return &c16Fresh{hash: tx.Hash(), boc: append([]byte{}, b...)}
+}
+
+func c16FreshMsg(s c16Src) *c16Fresh {
+	cells, _ := buildGo(s.dag)
+	var m tlb.Message
+	if tlb.Unmarshal(cells[s.root], &m) != nil {
+		return nil
+	}
+	return &c16Fresh{hash: m.Hash(false), norm: m.Hash(true)}
+}
+
+type c16Handed struct {
+	slice []byte // what the library returned
+	keep  []byte // its content at that time; nil once the caller overwrote it
+}
+
+func execC16HistTx(in sx.V) sx.V {
+	srcs, ok := c16Sources(in.List[0])
+	if !ok {
+		return sx.A("build-err")
+	}
+	dec := tlb.NewDecoder()
+	cur := new(tlb.Transaction)
+	var exp *c16Fresh
+	var handed []c16Handed
+	var out []sx.V
+	for _, op := range in.List[1].List {
+		switch op.List[0].I() {
+		case 0:
+			s := srcs[op.List[1].I()]
+			var err error
+			if op.List[2].Bool {
+				err = dec.Unmarshal(s.cells[s.root], cur)
+			} else {
+				err = tlb.Unmarshal(s.cells[s.root], cur)
+			}
+			exp = nil
+			if err == nil {
+				if exp = c16FreshTx(s); exp == nil {
+					return c16Fail("history-decode-succeeds-only-on-used-variable")
+				}
+			}
+			out = append(out, sx.A(map[bool]string{true: "ok", false: "err"}[err == nil]))
+		case 1:
+			h := cur.Hash()
+			if exp != nil && h != exp.hash {
+				return c16Fail("history-dependent-tx-hash")
+			}
+			out = append(out, sx.Bytes(h[:]))
+		case 2:
+			b, err := cur.SourceBoc()
+			if err != nil {
+				if exp != nil {
+					return c16Fail("history-source-boc-fails-after-decode")
+				}
+				out = append(out, sx.A("err"))
+				break
+			}
+			if exp != nil {
+				if !bytes.Equal(b, exp.boc) {
+					return c16Fail("source-boc-not-of-last-decoded-cell")
+				}
+				roots, perr := boc.DeserializeBoc(b)
+				h := cur.Hash()
+				if perr != nil || len(roots) != 1 {
+					return c16Fail("source-boc-does-not-parse-back")
+				}
+				if ph, e := roots[0].Hash(); e != nil || !bytes.Equal(ph, h[:]) {
+					return c16Fail("source-boc-hash-differs-from-hash")
+				}
+			}
+			out = append(out, sx.Bytes(b))
+			hd := c16Handed{slice: b, keep: append([]byte{}, b...)}
+			if op.List[1].Bool { // the caller recycles the buffer it was given
+				for i := range b {
+					b[i] = 0xa5
+				}
+				hd.keep = nil
+			}
+			handed = append(handed, hd)
+		case 3:
+			cp := new(tlb.Transaction)
+			*cp = *cur
+			if cp.Hash() != cur.Hash() {
+				return c16Fail("copy-reports-other-hash")
+			}
+			b1, e1 := cur.SourceBoc()
+			b2, e2 := cp.SourceBoc()
+			if (e1 == nil) != (e2 == nil) || !bytes.Equal(b1, b2) {
+				return c16Fail("copy-reports-other-source-boc")
+			}
+			if exp != nil && !bytes.Equal(b2, exp.boc) {
+				return c16Fail("source-boc-not-of-last-decoded-cell")
+			}
+			cur = cp
+			out = append(out, sx.A("copy"))
+		}
+		// slices handed out earlier belong to the caller: the library must not touch them
+		for _, hd := range handed {
+			if hd.keep != nil && !bytes.Equal(hd.slice, hd.keep) {
+				return c16Fail("returned-slice-changed-later")
+			}
+		}
+	}
+	return sx.L(out...)
+}
+
+func execC16HistMsg(in sx.V) sx.V {
+	srcs, ok := c16Sources(in.List[0])
+	if !ok {
+		return sx.A("build-err")
+	}
+	dec := tlb.NewDecoder()
+	cur := new(tlb.Message)
+	var exp *c16Fresh
+	var out []sx.V
+	for _, op := range in.List[1].List {
+		switch op.List[0].I() {
+		case 0:
+			s := srcs[op.List[1].I()]
+			var err error
+			if op.List[2].Bool {
+				err = dec.Unmarshal(s.cells[s.root], cur)
+			} else {
+				err = tlb.Unmarshal(s.cells[s.root], cur)
+			}
+			exp = nil
+			if err == nil {
+				if exp = c16FreshMsg(s); exp == nil {
+					return c16Fail("history-decode-succeeds-only-on-used-variable")
+				}
+			}
+			out = append(out, sx.A(map[bool]string{true: "ok", false: "err"}[err == nil]))
+		case 1:
+			h := cur.Hash(false)
+			if exp != nil && h != exp.hash {
+				return c16Fail("history-dependent-msg-hash")
+			}
+			out = append(out, sx.Bytes(h[:]))
+		case 2:
+			h := cur.Hash(true)
+			if exp != nil && h != exp.norm {
+				return c16Fail("history-dependent-normalized-hash")
+			}
+			out = append(out, sx.Bytes(h[:]))
+		case 3:
+			cp := new(tlb.Message)
+			*cp = *cur
+			if cp.Hash(false) != cur.Hash(false) || cp.Hash(true) != cur.Hash(true) {
+				return c16Fail("copy-reports-other-hash")
+			}
+			cur = cp
+			out = append(out, sx.A("copy"))
+		}
+	}
+	return sx.L(out...)
 }
 
 // ------------------------------------------- independent TL-B message encoder
@@ -1203,7 +1405,7 @@ func c16GraftInMsg(tx []Node, msg []Node) ([]Node, bool) {
 	return c16Compact(d, 0), true
 }
 
-func (g *c16Gen) real(budgetMsg, budgetTx, maxMsgBlocks, maxTxBlocks int) {
+func (g *c16Gen) real(budgetMsg, budgetTx, maxMsgBlocks, maxTxBlocks, nHist int) {
 	r := g.c.R
 	var txDags [][]Node
 	for _, f := range c16BlockFiles() {
@@ -1341,6 +1543,121 @@ func (g *c16Gen) real(budgetMsg, budgetTx, maxMsgBlocks, maxTxBlocks int) {
 	}
 	if len(txDags) == 0 {
 		g.c.Fail("c16.tx", sx.A("none"), "C16/no-testdata", "no transaction found in the testdata blocks")
+		return
+	}
+	g.txHistories(txDags, nHist)
+}
+
+func c16Op(code int, args ...sx.V) sx.V { return sx.L(append([]sx.V{sx.Nat(code)}, args...)...) }
+
+// c16Ops: decodes of the given sources interleaved with 0..2 observations each
+// (either order), copies, and caller-side overwriting of returned slices.
+func c16Ops(r *prng.R, nsrc int, n int) ([]sx.V, string) {
+	var ops []sx.V
+	decodes, muts, copies := 0, 0, 0
+	observe := func() {
+		for k := r.Intn(3); k > 0; k-- {
+			switch r.Intn(5) {
+			case 0, 1:
+				ops = append(ops, c16Op(1))
+			case 2, 3:
+				m := r.Chance(40)
+				if m {
+					muts++
+				}
+				ops = append(ops, c16Op(2, sx.B(m)))
+			default:
+				copies++
+				ops = append(ops, c16Op(3))
+			}
+		}
+	}
+	if r.Chance(25) {
+		observe() // on the zero value
+	}
+	for decodes < n {
+		ops = append(ops, c16Op(0, sx.Nat(r.Intn(nsrc)), sx.B(r.Bool())))
+		decodes++
+		observe()
+	}
+	ops = append(ops, c16Op(2, sx.B(false)), c16Op(1))
+	return ops, fmt.Sprintf("d%d/m%d/c%d", decodes, minInt(muts, 2), minInt(copies, 2))
+}
+
+func (g *c16Gen) emitHist(kind string, srcs [][]Node, ops []sx.V, class string) {
+	var sv []sx.V
+	for _, d := range srcs {
+		sv = append(sv, c16Input(d, 0))
+	}
+	in := sx.L(sx.L(sv...), sx.L(ops...))
+	out := g.c.Emit(kind, in, class)
+	if out.Head() == "oracle-fail" {
+		g.c.Fail(kind, in, "C16/"+out.List[1].Atom, out.List[1].Atom)
+	}
+}
+
+func (g *c16Gen) txHistories(txDags [][]Node, n int) {
+	r := g.c.R
+	// the fixed schedules first: decode A, SourceBoc, decode B, SourceBoc; overwrite the returned slice
+	fixed := [][]sx.V{
+		{c16Op(0, sx.Nat(0), sx.B(false)), c16Op(2, sx.B(false)), c16Op(0, sx.Nat(1), sx.B(false)), c16Op(2, sx.B(false)), c16Op(1)},
+		{c16Op(0, sx.Nat(0), sx.B(true)), c16Op(2, sx.B(false)), c16Op(0, sx.Nat(1), sx.B(true)), c16Op(2, sx.B(false)), c16Op(1)},
+		{c16Op(0, sx.Nat(0), sx.B(false)), c16Op(2, sx.B(true)), c16Op(2, sx.B(false)), c16Op(1)},
+		{c16Op(0, sx.Nat(0), sx.B(true)), c16Op(2, sx.B(false)), c16Op(3), c16Op(0, sx.Nat(1), sx.B(false)), c16Op(2, sx.B(true)), c16Op(2, sx.B(false)), c16Op(1)},
+	}
+	for i := 0; i < n; i++ {
+		k := 2 + r.Intn(2)
+		var srcs [][]Node
+		fam := "real"
+		for j := 0; j < k; j++ {
+			d := c16CloneDag(txDags[r.Intn(len(txDags))])
+			if j > 0 && r.Chance(20) { // a source that does not decode: tag, or truncated after the hash was taken
+				if r.Bool() {
+					d[0].Bits = c16FlipBit(d[0].Bits, r.Intn(4))
+				} else {
+					d[0].Bits = d[0].Bits[:4+r.Intn(len(d[0].Bits)-4)]
+				}
+				fam = "real+bad"
+			}
+			srcs = append(srcs, d)
+		}
+		var ops []sx.V
+		class := ""
+		if i < len(fixed) {
+			ops, class = fixed[i], fmt.Sprintf("fixed%d", i)
+		} else {
+			ops, class = c16Ops(r, k, 2+r.Intn(3))
+		}
+		g.emitHist("c16.htx", srcs, ops, "hist/"+fam+"/"+class)
+	}
+}
+
+func (g *c16Gen) msgHistories(n int) {
+	r := g.c.R
+	for i := 0; i < n; i++ {
+		k := 2 + r.Intn(2)
+		var srcs [][]Node
+		fam := "syn"
+		for len(srcs) < k {
+			pool := c16Pool(r)
+			sp := c16RandSpec(r, len(pool))
+			if r.Chance(60) {
+				sp.Kind = 1
+				sp.Src, sp.Dest = c16RandAddr(r, false, false), c16RandAddr(r, true, false)
+			}
+			d, _, ok := c16Build(r, sp, pool)
+			if !ok {
+				continue
+			}
+			if len(srcs) > 0 && r.Chance(20) { // fails after the hash was taken: hash replaced, fields kept
+				d = c16CloneDag(d)
+				d[0].Bits = d[0].Bits[:r.Intn(minInt(len(d[0].Bits), 40))]
+				fam = "syn+bad"
+			}
+			srcs = append(srcs, d)
+		}
+		ops, class := c16Ops(r, k, 2+r.Intn(3))
+		g.emitHist("c16.hmsg", srcs, ops, "hist/"+fam+"/"+class)
 	}
 }
 
@@ -1348,5 +1665,6 @@ func genC16(c *Ctx) {
 	g := &c16Gen{c: c}
 	g.synthetic(c.Scale(45, 2500))
 	g.special(c.Scale(40, 800))
-	g.real(c.Scale(110, 6000), c.Scale(160, 12000), c.Scale(60, 1500), c.Scale(120, 3000))
+	g.real(c.Scale(110, 6000), c.Scale(160, 12000), c.Scale(60, 1500), c.Scale(120, 3000), c.Scale(10, 300))
+	g.msgHistories(c.Scale(25, 1200))
 }
